@@ -30,6 +30,7 @@ import (
 	"github.com/thanos-community/promql-engine/execution/model"
 	"github.com/thanos-community/promql-engine/execution/parse"
 	"github.com/thanos-community/promql-engine/logicalplan"
+	"github.com/thanos-community/promql-engine/verifhook"
 )
 
 type QueryType int
@@ -265,6 +266,7 @@ func (q *compatibilityQuery) Exec(ctx context.Context) (ret *promql.Result) {
 	}
 loop:
 	for {
+		verifhook.Yield("exec.loop")
 		select {
 		case <-ctx.Done():
 			return newErrResult(ret, ctx.Err())
